@@ -16,6 +16,13 @@ def run(unit, tier):
     res = {"unit": unit["name"], "engine": "kani", "undecided": [], "failed": [], "functions": [], "vcs": [],
            "items": [], "trusted": [], "cmds": [], "smt_ms": 0, "wall": 0.0, "canary": {}, "fn_props": {}, "bounded": [], "samples": []}
     crate = os.path.join(VERIF, unit["crate_dir"])
+    if os.environ.get("VERIF_BUILD"):
+        # side run: work on a private copy of the harness crate
+        import shutil
+        side = os.path.join(os.environ["VERIF_BUILD"], "kani-" + unit["name"])
+        if not os.path.isdir(side):
+            shutil.copytree(crate, side, ignore=shutil.ignore_patterns("target"))
+        crate = side
     try:
         g = extract.generate(os.path.join(VERIF, unit["template"]))
     except extract.ExtractError as e:
